@@ -23,7 +23,7 @@ LEVEL = META['level']
 RULE = ('a case = one (personality, request route path, service) combination executed, or one textual path parsed; enumerated over fixed lists plus seeded variations; '
         'distinct by the tuple; non-trivial = the accept/refuse oracle and the tag-access counters were both evaluated')
 ASSUMPTIONS = ['an Unconnected Send with a zero-length route path counts as "no route path"']
-REQUIRED = ['personality:routed', 'text:non-canonical-address', 'personality:none', 'personality:simple', 'personality:single', 'personality:multi', 'personality:address-link', 'accepted', 'refused',
+REQUIRED = ['client:route-path-spellings', 'personality:routed', 'text:non-canonical-address', 'personality:none', 'personality:simple', 'personality:single', 'personality:multi', 'personality:address-link', 'accepted', 'refused',
             'request:bare', 'request:empty-route-path', 'request:equal', 'request:different', 'monitor:no-tag-access-on-refusal', 'monitor:served-correctly',
             'tcp:route-path-option', 'tcp:simple-option', 'text:route-paths', 'text:connection-paths', 'service:bundle']
 TIMEOUT = {'quick': 300, 'thorough': 1800}
@@ -297,6 +297,56 @@ def text_forms(ctx, rng):
         ctx.count('text:route-paths')
 
 
+def client_part(ctx, rng):
+    """The route path an operation spells through the client API (text form, JSON, structure, None = the documented default 1/0,
+    False/0/[] = none) is the one the configured simulator judges, whatever send path is given along with it."""
+    from vlib import simdrv, reqgen
+    from cpppo.server.enip import client
+    conf = [{'port': 1, 'link': 1}]
+    sim = simdrv.TcpSim(reqgen.argv_of(CFG) + ['--route-path', '1/1'])
+    try:
+        default = client.connector.route_path_default
+        if isinstance(default, str):
+            from cpppo.server.enip import device
+            default = [dict(s) for s in device.parse_route_path(default)]
+        spellings = [(None, list(default)), ('1/1', conf), ('1/0', [{'port': 1, 'link': 0}]), ('[{"port": 1, "link": 1}]', conf), ([{'port': 1, 'link': 1}], conf),
+                     ('1/1/2/3', conf + [{'port': 2, 'link': 3}]), (False, 'bare'), ([], 'bare'), (0, 'bare')]
+        k = 0
+        for rp, spelled in spellings:
+            for sp in (None, '@6/1'):       # the Connection Manager, implicitly and spelled out
+                if spelled == 'bare' and sp is None:
+                    sp_use = ''
+                else:
+                    sp_use = sp
+                k += 1
+                kw = {}
+                if rp is not None:
+                    kw['route_path'] = rp
+                if sp_use is not None:
+                    kw['send_path'] = sp_use
+                wit = {'client': True, 'route_path': repr(rp), 'send_path': repr(sp_use), 'configured': conf}
+                want = rule(conf, spelled)
+                val = 100 + k
+                sim.attributes()['RP'][0] = 7
+                accepted, err = None, None
+                try:
+                    with client.connector(host=sim.address[0], port=sim.address[1], timeout=20) as conn:
+                        res = list(conn.operate(client.parse_operations(['RP[0]=%d' % val], **kw), timeout=20))
+                    accepted = bool(res) and res[0][4] in (0, 6)
+                except Exception as exc:
+                    accepted, err = False, repr(exc)[:160]
+                ctx.count('client:route-path-spellings')
+                ctx.case(('client-rp', repr(rp), repr(sp_use)))
+                wrote = sim.attributes()['RP'][0] == val
+                if accepted != want or wrote != want:
+                    ctx.violation('client-route-path-not-as-spelled', 'operation with route_path=%r send_path=%r spells the route path %r; a simulator configured with %r must %s it, but the '
+                                  'request was %s (tag %s)%s' % (rp, sp_use, spelled, conf, 'accept' if want else 'refuse', 'accepted' if accepted else 'refused',
+                                                               'written' if wrote else 'untouched', (': ' + err) if err else ''), wit)
+                    return
+    finally:
+        sim.stop()
+
+
 def run(ctx):
     rng = ctx.rng
     jobs = []
@@ -317,6 +367,8 @@ def run(ctx):
             ctx.count('tcp:simple-option' if conf is False else 'tcp:route-path-option')
     if ctx.shard == 0:
         text_forms(ctx, rng)
+    if ctx.shard == 1 % ctx.nshards:
+        client_part(ctx, rng)
     ctx.sample({'personalities': [json.dumps(c) for _, c in PERSONALITIES], 'request_variations_for_first_single': [v[1] for v in variations(rng, PERSONALITIES[2][1])]})
 
 
